@@ -1048,6 +1048,10 @@ def songR : Song := { tracks := [(0, [n 1, jmp 1, jmp (-1)]), (1, [jmp 0, n 2]),
 
 example : analyzeStack songR ≠ .error .fuel := C01_analyzeStack_budget songR (by decide)
 
+/-- one call of `analyze_track` on track 0 of that song with a budget of `3 + 1` frames -/
+example : analyzeTrack songR 4 [] 0 [n 1, jmp 1, jmp (-1)] 0 ≠ .error .fuel :=
+  C01_analyzeTrack_budget songR (by decide) [] 0 _ 0 (by decide) 4 (by decide)
+
 /-- **The `int16_t` hypothesis cannot be dropped in the model** (a model artefact, not a defect of
 the C++, whose `Event::param` is an `int16_t`): parameters that differ by multiples of 65536 name
 the same track but have different analysers, so one track with three such calls to itself needs
@@ -1093,6 +1097,11 @@ example (s' : Song) (best : Match) (id' : Int) (hfb : findBestMatch songS mS 150
   C01_extract_pass_decreases wfS freshS hfb hl hs
 
 example : bmS.loopScore < bmS.subScore ∧ 1 ≤ bmS.bestScore ∧ totalEvents songS = 10 := by decide
+
+/-- `pass_i16` on that pass: the inserted `JUMP 15000` is an `int16_t` call -/
+example (s' : Song) (best : Match) (id' : Int) (hfb : findBestMatch songS mS 15000 = .ok (s', best, id')) :
+    SongI16 s' :=
+  pass_i16 wfS freshS (by decide) (by decide) (by decide) hfb
 
 /-- the hypotheses of `C01_optimize_terminates_partial` are satisfiable: the run on `songL` does not
 run out of fuel for any fuel above `(6 + 1)²` -/
